@@ -10,5 +10,12 @@ CONSTANTS
   QCap = 2
   Dev_ProxySectionsNotAtomic = FALSE
   Dev_SendAfterSnapshot = FALSE
+  Objects = {"o1"}
+  ObjOf <- AllO1
+  Devs = {}
+  Probe <- NoProbe
+  Failing = {}
+  Inject <- NoInject
+  Rogue = {}
 PROPERTIES EventuallyClosed
 CHECK_DEADLOCK FALSE
